@@ -101,16 +101,19 @@ Definition p_obs (o : obs) : list N :=
 
 (* ---- cases -------------------------------------------------------------------------------------------------- *)
 
+(* one history; the implementation was run under every pattern of [pc_runs]; executions with identical token
+   streams share one entry of [pc_streams] *)
 Record pcase := {
   pc_assets : assets; pc_trigger : trigger; pc_flow : id; pc_batch : bool;
-  pc_ops : list (bool * resume);            (* restart before this resume?, the resume *)
-  pc_obs : list (list N)                    (* one token stream per engine call, from the implementation *)
+  pc_resumes : list resume;
+  pc_streams : list (list (list N));        (* distinct observed executions: one token stream per engine call *)
+  pc_runs : list (list bool * nat)          (* restart pattern (restart before the i-th resume?), index into pc_streams *)
 }.
 
 Definition timeout_text : text := [84].     (* the canonical value of results saved by a timeout route *)
 
-Definition run_case (c : pcase) : list (list N) :=
-  map p_obs (run_history (pc_assets c) timeout_text (pc_trigger c) (pc_flow c) (pc_batch c) (pc_ops c)).
+Definition run_case (c : pcase) (bs : list bool) : list (list N) :=
+  map p_obs (run_history (pc_assets c) timeout_text (pc_trigger c) (pc_flow c) (pc_batch c) (with_pattern bs (pc_resumes c))).
 
 Fixpoint tokens_eqb (a b : list N) : bool :=
   match a, b with
@@ -126,7 +129,12 @@ Fixpoint streams_eqb (a b : list (list N)) : bool :=
   | _, _ => false
   end.
 
-Definition check (c : pcase) : bool := streams_eqb (run_case c) (pc_obs c).
+Definition check (c : pcase) : bool :=
+  forallb (fun '(bs, k) => match nth_error (pc_streams c) k with
+                           | Some obs => streams_eqb (run_case c bs) obs
+                           | None => false
+                           end) (pc_runs c)
+  && negb (match pc_runs c with [] => true | _ => false end).
 
 Fixpoint mismatches_from (i : N) (cs : list pcase) : list N :=
   match cs with
